@@ -73,6 +73,8 @@ func seqProfile(prop string, g *Gen, cfg *Config, rng *SplitMix) (steps int) {
 		g.W["prune_dry"] = 6
 		g.W["set"] = 30
 		g.W["compact"] = 6
+		g.W["sequence"] = 12
+		g.W["sequence_rm"] = 7
 		g.BadBias = 25
 		steps = 18 + rng.Intn(20)
 	case "C10":
